@@ -28,7 +28,7 @@ def ma_getitem(ip, o, args, kwargs, node):
     if ls is None:
         return FALLBACK
     data = o.attrs.get('data')
-    if not isinstance(data, Arr):
+    if not isinstance(data, (Arr, View)):
         raise Unsupported('MatrixArray.data is not a heap array', node)
     return View(data, ('entry', ls[0], ls[1]))
 
@@ -38,7 +38,7 @@ def ma_setitem(ip, o, args, kwargs, node):
     if ls is None:
         return FALLBACK
     data = o.attrs.get('data')
-    if not isinstance(data, Arr):
+    if not isinstance(data, (Arr, View)):
         raise Unsupported('MatrixArray.data is not a heap array', node)
     v = args[1]
     t, _ = ip.term_of(v, node)
@@ -65,7 +65,7 @@ def iterpairs_filter_from_source(cls, name='iterpairs'):
 
 def ma_iterpairs(ip, o, args, kwargs, node):
     data = o.attrs.get('data')
-    if not isinstance(data, Arr):
+    if not isinstance(data, (Arr, View)):
         raise Unsupported('MatrixArray.data is not a heap array', node)
     op = iterpairs_filter_from_source(o.cls) if hasattr(o.cls, 'find_method') else None
     if op is None:
@@ -343,3 +343,167 @@ def install_containers(ip, domain_transforms=True, tables=True, matrixarray=True
     ip.natives[('typemap', '__getitem__')] = typemap_getitem
     ip.natives[('shape', '__getitem__')] = L.shape_getitem
     ip.natives[('poly1d', '__call__')] = L.poly1d_call
+
+
+# ---------------------------------------------------------------------------------------------
+# per-pair objects held by the System's tables (potential / closure / omega): generic elements
+# ---------------------------------------------------------------------------------------------
+class ElemFactory(object):
+    """lazily creates ONE abstract object per unordered pair and per table instance; deepcopy of the table
+    clones the factory, so elements of the copy are distinct objects (as copy.deepcopy makes them)"""
+    def __init__(self, kind, origin, make):
+        self.kind = kind
+        self.origin = origin
+        self.make = make
+        self.cache = {}
+        self.parent = None
+
+    def __call__(self, ip, a, b, node):
+        key = tuple(sorted((ip.canon_label(a), ip.canon_label(b))))
+        o = self.cache.get(key)
+        if o is None:
+            tmpl = self._template(ip, key)
+            if tmpl is not None:
+                o = self.cache[key] = tmpl
+            else:
+                o = self.cache[key] = self.make(ip, key[0], key[1], self)
+            if self.origin is not None:
+                o.origin = '%s[%s,%s]' % (self.origin, key[0], key[1])
+        return o
+
+    def _template(self, ip, key):
+        """a pair object that was wired inside a finished loop over all pairs stands for every pair: instantiate
+        it for the requested labels (the loop's coverage is checked by the rule that relies on this)"""
+        active = set()
+        for c in ip.loopctx:
+            active |= set(c.get('labels', ()))
+        for k, src in self.cache.items():
+            if k == key or k[0] == k[1] and key[0] != key[1]:
+                continue
+            if any(l.startswith('@') for l in k) or (set(k) & active):
+                continue
+            if key[0] == key[1] and k[0] != k[1] and frozenset(k) in ip.distinct:
+                continue
+            mp = {k[0]: key[0], k[1]: key[1]}
+            o = Obj(src.cls, {}, None)
+            for an, v in src.attrs.items():
+                if an == '_pair':
+                    o.attrs[an] = key
+                elif isinstance(v, Num):
+                    o.attrs[an] = Num(P.map_leaves(lambda t: relabel(t, mp, ip.symmetric), v.t), v.kind)
+                elif isinstance(v, (Arr, View)):
+                    t, _ = ip.term_of(v)
+                    o.attrs[an] = Arr(P.map_leaves(lambda t2: relabel(t2, mp, ip.symmetric), t), None, ip)
+                else:
+                    o.attrs[an] = v
+            ip.notes.append(('template-instance', {'from': k, 'to': key, 'kind': self.kind}))
+            return o
+        return None
+
+    def clone(self, ip):
+        f = ElemFactory(self.kind, None, self.make)
+        f.parent = self
+        # objects that already exist in the source table are copied value by value
+        for key, o in self.cache.items():
+            c = Obj(o.cls, {}, None)
+            for k, v in o.attrs.items():
+                c.attrs[k] = L.deepcopy(ip, [v], {}, None) if isinstance(v, (Arr, View, Obj)) else v
+            f.cache[key] = c
+        return f
+
+
+def make_potential(ip, a, b, fac):
+    cls = ip.prog.cls('pyPRISM.potential.Potential::Potential')
+    unset = ip.decide(P.Cond.flag('potential(%s,%s).sigma is None' % (a, b)), None)
+    sig = NONE if unset else Num(N.NF.atom(('fn', 'usig', a, b)))
+    return Obj(cls, {'sigma': sig, '_pair': (a, b)}, None)
+
+
+def make_closure(ip, a, b, fac):
+    cls = ip.prog.cls('pyPRISM.closure.AtomicClosure::AtomicClosure')
+    return Obj(cls, {'sigma': NONE, 'potential': NONE, 'value': NONE, '_pair': (a, b)}, None)
+
+
+def make_omega(ip, a, b, fac):
+    cls = ip.prog.cls('pyPRISM.omega.Omega::Omega')
+    return Obj(cls, {'_pair': (a, b)}, None)
+
+
+def _key_of(ip, v, node):
+    if isinstance(v, Const) and v.v is None:
+        return 'None'
+    t, _ = ip.term_of(v, node)
+    if P.is_pw(t):
+        raise Unsupported('piecewise attribute', node)
+    return t
+
+
+def potential_calculate(ip, o, args, kwargs, node):
+    a, b = o.attrs['_pair']
+    grid, _ = ip.term_of(args[0], node)
+    sig = o.attrs.get('sigma')
+    if isinstance(sig, Const) and sig.v is None:
+        raise Raised('AssertionError', 'Sigma must be set before evaluating potential!', ip.loc(node))
+    st = _key_of(ip, sig, node)
+    ip.notes.append(('potential-calculate', {'pair': (a, b), 'grid': grid, 'sigma': st, 'loc': ip.loc(node), 'obj': o}))
+    return ip.fresh_array(N.fn('Ucalc', a, b, st, grid))
+
+
+def closure_calculate(ip, o, args, kwargs, node):
+    a, b = o.attrs['_pair']
+    if len(args) != 2:
+        raise Raised('TypeError', 'closure.calculate(r, gamma) arity', ip.loc(node))
+    grid, _ = ip.term_of(args[0], node)
+    gam, _ = ip.term_of(args[1], node)
+    pot = o.attrs.get('potential')
+    if isinstance(pot, Const) and pot.v is None:
+        raise Raised('AssertionError', 'Potential for this closure is not set!', ip.loc(node))
+    pt = _key_of(ip, pot, node)
+    sg = _key_of(ip, o.attrs.get('sigma'), node)
+    sgk = sg if not isinstance(sg, str) else N.sym('None')
+    ip.notes.append(('closure-calculate', {'pair': (a, b), 'grid': grid, 'gamma': gam, 'potential': pt, 'sigma': sg,
+                                           'loc': ip.loc(node), 'obj': o}))
+    return ip.fresh_array(N.fn('Cl', a, b, pt, sgk, grid, gam))
+
+
+def omega_calculate(ip, o, args, kwargs, node):
+    a, b = o.attrs['_pair']
+    grid, _ = ip.term_of(args[0], node)
+    ip.notes.append(('omega-calculate', {'pair': (a, b), 'grid': grid, 'loc': ip.loc(node)}))
+    return ip.fresh_array(N.fn('omega', a, b, grid))
+
+
+def identity_new(ip, cls, args, kwargs, node):
+    b = dict(zip(['length', 'rank', 'data', 'space', 'types'], args))
+    b.update(kwargs)
+    ip.declare('Iden', 'tensor', symmetric=True)
+    o = Obj(cls, {'data': Arr(N.sym('Iden'), None, ip), 'space': b.get('space', NONE), 'types': b.get('types', NONE),
+                  'rank': b.get('rank', NONE), 'length': b.get('length', NONE), 'typeMap': Obj('typemap', {})}, None)
+    ip.notes.append(('identity-new', {'loc': ip.loc(node)}))
+    return o
+
+
+def vt_iter(ip, o, args, kwargs, node):
+    def make(ip2):
+        l = ip2.new_label()
+        val = vt_getitem(ip2, o, [l], {}, node)
+        return Seq([Index(l.name), l, val]), {'labels': [l.name], 'kind': 'ValueTable.__iter__'}
+    return LabelIter(make, 'ValueTable.__iter__')
+
+
+def pt_iter(ip, o, args, kwargs, node):
+    def make(ip2):
+        a, b = ip2.new_label(), ip2.new_label()
+        val = pt_lookup(ip2, o, (a.name, b.name), node)
+        return Seq([Seq([Index(a.name), Index(b.name)]), Seq([a, b]), val]), {'labels': [a.name, b.name],
+                                                                                'kind': 'PairTable.__iter__'}
+    return LabelIter(make, 'PairTable.__iter__')
+
+
+def install_elements(ip):
+    ip.natives[('Potential', 'calculate')] = potential_calculate
+    ip.natives[('AtomicClosure', 'calculate')] = closure_calculate
+    ip.natives[('Omega', 'calculate')] = omega_calculate
+    ip.natives[('IdentityMatrixArray', '__new__')] = identity_new
+    ip.natives[('ValueTable', '__iter__')] = vt_iter
+    ip.natives[('PairTable', '__iter__')] = pt_iter
